@@ -235,6 +235,21 @@ def gen_c10(seed, index):
             "weights": {"fit": 1, "pfit": 3, "query": 0, "add": 1.5, "rem": 1, "warm": 0.5}, "end_query": False,
             "n_ops": (1, 5)}
     rng, g = _gen(seed, index, prof)
+    if index % 5 == 0:
+        # every fifth scenario: a policy without neighbourhood policy that supports warm start, kinds in turn
+        rng, g = _gen(seed, index, dict(prof, lp=[G.WARM_OK[(index // 5) % len(G.WARM_OK)]], np=[None]))
+    if g.npk is None and g.lpk in G.WARM_OK and len(g.arms) >= 2 and (index % 5 == 0 or rng.random() < 0.25):
+        # train, answer queries, then warm start a cold arm and query again: whatever a prediction caches must be
+        # invalidated by the warm start
+        ops = cold_first_scenario(rng, g)
+        g.ops = []
+        for _ in range(rng.randint(1, 2)):
+            g.op_query()
+        queries = g.ops
+        g.ops = []
+        g.op_query("pexp")
+        g.op_query("pred")
+        return {"cfg": dict(g.cfg, n_jobs=1), "ops": ops[:1], "queries": queries, "cont": ops[1:] + g.ops}
     scn = g.build()
     g.ops = []
     for _ in range(rng.randint(1, 4)):
@@ -336,9 +351,39 @@ BAD_PROFILE = {"name": "C17", "lp": ALL_LP, "np": [None, None] + G.NP_KINDS,
                "n_ops": (3, 9)}
 
 
+FIRST_CALL_PROFILE = dict(BAD_PROFILE, name="C17f", np=["clusters"], bad_classes=["few_rows"])
+
+
 def gen_c17(seed, index):
+    if index % 25 == 7:
+        # the very first training call is a partial_fit that is rejected from inside training
+        # (fewer rows than clusters); then a valid history
+        rng, g = _gen(seed, index, FIRST_CALL_PROFILE)
+        for _ in range(20):
+            if g.op_bad() == "few_rows":
+                break
+        if g.ops and g.ops[-1].get("bad") == "few_rows":
+            g.ops[-1]["op"] = "pfit"
+        first = list(g.ops)
+        g.ops = []
+        scn = g.build()
+        scn["ops"] = first + [o for o in scn["ops"] if not o.get("bad")]
+        return scn
     rng, g = _gen(seed, index, BAD_PROFILE)
     scn = g.build()
+    return scn
+
+
+SCALED_BAD_PROFILE = {"name": "C17s", "lp": list(G.LIN_KINDS), "np": [None],
+                      "weights": {"fit": 1, "pfit": 3, "query": 3, "add": 2, "rem": 0.7, "warm": 0.3, "bad": 4},
+                      "bad_classes": ["width", "width", "nonfinite", "len_ctx", "len_rewards"], "n_ops": (3, 9)}
+
+
+def gen_c17_scaled(seed, index):
+    """linear policies with scale=True (per-arm scalers are learned state too); implementation-only relation"""
+    rng, g = _gen(seed, index, SCALED_BAD_PROFILE)
+    scn = g.build()
+    scn["cfg"] = dict(scn["cfg"], lp=dict(scn["cfg"]["lp"], scale=True))
     return scn
 
 
@@ -542,7 +587,10 @@ def gen_c13(seed, index):
         k = rng.choice(["pfit", "query", "query"])
         {"pfit": lambda: g.op_train("pfit"), "query": g.op_query}[k]()
     g.op_query("pexp")
-    return {"cfg": scn["cfg"], "ops": scn["ops"] + pre, "warm": warm[0] if warm else None, "cont": g.ops}
+    cfg = scn["cfg"]
+    if cfg["lp"]["k"] in G.LIN_KINDS and rng.random() < 0.5:
+        cfg = dict(cfg, lp=dict(cfg["lp"], scale=True))     # per-arm standardisation is part of the learned state
+    return {"cfg": cfg, "ops": scn["ops"] + pre, "warm": warm[0] if warm else None, "cont": g.ops}
 
 
 @twin("warm_start_laws")
@@ -562,6 +610,7 @@ def warm_start_laws(scn):
         # a rejected warm start must change nothing (C17); nothing more to check here
         return None
     cold1 = T.canon(list(once.cold_arms))
+    snap = copy.deepcopy(once)        # the bandit right after the call
     if not set(map(repr, cold1)) <= set(map(repr, cold0)):
         return "cold_arms after warm_start %r is not a subset of cold_arms before %r" % (cold1, cold0)
     # repeating the call changes nothing
@@ -582,7 +631,23 @@ def warm_start_laws(scn):
         if prev is not None and not cold <= prev[1]:
             return "cold arms at quantile %r (%r) not a subset of those at quantile %r (%r)" % (q, sorted(cold), prev[0], sorted(prev[1]))
         prev = (q, cold)
-    # trained arms keep their learned state: train-free continuation on a deterministic policy
+    # an arm warm started by the call holds an exact copy of a trained arm's learned state: for policies whose
+    # expectations are deterministic it reports, for every context, exactly what some arm that was not cold reports
+    lp = scn["cfg"]["lp"]
+    det = lp["k"] in ("ucb", "linucb") or (lp["k"] in ("greedy", "lingreedy") and lp.get("eps", 0) == 0)
+    warmed = [x for x in cold0 if repr(x) not in set(map(repr, cold1))]
+    if det and warmed:
+        probe = next((o for o in scn["cont"] if o["op"] == "pexp"), None)
+        if probe is not None:
+            res = T.apply_op(snap, probe)
+            if res[0] == "ok":
+                rows = res[1] if (res[1] and isinstance(res[1][0], list)) else [res[1]]
+                sources = [k for k, _ in rows[0] if repr(k) not in set(map(repr, cold0))]
+                for wa in warmed:
+                    col = [dict((repr(k), v) for k, v in row)[repr(wa)] for row in rows]
+                    if not any(all(dict((repr(k), v) for k, v in row)[repr(src)] == cv for row, cv in zip(rows, col))
+                               for src in sources):
+                        return "warm-started arm %r reports %r, which is not what any trained arm reports %r" % (wa, col, rows)
     return None
 
 
@@ -616,6 +681,13 @@ def gen_nhood(seed, index, np_kinds, name):
         g.cfg["n_jobs"] = rng.choice([1, 2, 3])
         g.cfg["backend"] = "threading"
     scn = g.build()
+    if g.npk == "tree" and rng.random() < 0.4:
+        # large-magnitude features with small differences (unix timestamps): scikit-learn trees see float32 values,
+        # so the leaf of a query is the leaf `tree.apply` reports, not the one a float64 comparison would give
+        scale = rng.choice([97, 211, 389])
+        for op in scn["ops"]:
+            if op.get("c"):
+                op["c"] = [[1.7e9 + v * scale + rng.randint(0, 90) for v in row] for row in op["c"]]
     return scn
 
 
